@@ -39,7 +39,16 @@ REAL = (
 )
 
 
+_CAT = []
+
+
 def _fault_catalogue():
+    if not _CAT:
+        _CAT.append(_fault_catalogue_())
+    return _CAT[0]
+
+
+def _fault_catalogue_():
     from harness import C01
     n = (1, 1, 1, 1, 1)
     cells = C01.canonical(n)
@@ -81,6 +90,11 @@ class Facts:
     pass
 
 
+def _read(path: str) -> str:
+    with open(path) as fh:
+        return fh.read()
+
+
 def run(fault_idx: int, kind: int, keep: bool, xsel: int, mis: int) -> Facts:
     from harness import C01
     from vsym import exeharness as xh
@@ -114,25 +128,27 @@ def run(fault_idx: int, kind: int, keep: bool, xsel: int, mis: int) -> Facts:
         if sds is None:
             return
         f.post_sds_steps += 1
-        root = sds.root_dir
+        if 'root' not in state:
+            state['root'] = str(sds.root_dir)
+        rs = state['root']
         if state['first']:
             state['first'] = False
             # documented layout, act/ is the current directory
             for d in ('act', 'tmp', 'result', 'internal'):
-                if not (root / d).is_dir():
+                if not os.path.isdir(rs + '/' + d):
                     f.problems.append('missing dir %s' % d)
-            if os.getcwd() != str(root / 'act'):
+            if os.getcwd() != rs + '/act':
                 f.problems.append('cwd is not act/ at the first step after sandbox creation')
-            if sorted(os.listdir(str(root))) != ['act', 'internal', 'result', 'tmp']:
-                f.problems.append('unexpected entries in sandbox root: %r' % sorted(os.listdir(str(root))))
-            if os.listdir(str(root / 'act')) or os.listdir(str(root / 'result')):
+            if sorted(os.listdir(rs)) != ['act', 'internal', 'result', 'tmp']:
+                f.problems.append('unexpected entries in sandbox root: %r' % sorted(os.listdir(rs)))
+            if os.listdir(rs + '/act') or os.listdir(rs + '/result'):
                 f.problems.append('act/ or result/ not empty at start')
         # tmp/ is never touched by Exactly itself
-        if os.listdir(str(root / 'tmp')):
+        if os.listdir(rs + '/tmp'):
             f.problems.append('tmp/ not empty at %r' % (cell,))
         # the environment mapping handed to instructions is not os.environ itself
         settings = ctx.get('settings')
-        if settings is not None:
+        if settings is not None and cell[0] == 'setup':
             e = settings.environ()
             if e is os.environ:
                 f.problems.append('instruction settings environ is os.environ')
@@ -141,14 +157,13 @@ def run(fault_idx: int, kind: int, keep: bool, xsel: int, mis: int) -> Facts:
                 f.problems.append('default environ getter returns os.environ itself')
         # result/ after the act phase
         if cell[0] in ('ba', 'assert', 'cleanup') and cell[1] == 'main' and state['atc_done']:
-            names = sorted(os.listdir(str(root / 'result')))
+            names = sorted(os.listdir(rs + '/result'))
             if names != ['exit-code', 'stderr', 'stdout']:
                 f.problems.append('result/ holds %r' % names)
             else:
                 f.saw_result_files = True
-                if (root / 'result' / 'stdout').read_text() != 'atc-out' or \
-                        (root / 'result' / 'stderr').read_text() != 'atc-err' or \
-                        (root / 'result' / 'exit-code').read_text() != str(code):
+                if _read(rs + '/result/stdout') != 'atc-out' or _read(rs + '/result/stderr') != 'atc-err' or \
+                        _read(rs + '/result/exit-code') != str(code):
                     f.problems.append('result files do not hold the outcome of the action to check')
         if cell == ('act', 'execute', 0) and kind_of(cell) == 0:
             state['atc_done'] = True
@@ -159,6 +174,7 @@ def run(fault_idx: int, kind: int, keep: bool, xsel: int, mis: int) -> Facts:
             p.write_text('x')
         # the misbehaving instruction: the first setup main
         if cell == ('setup', 'main', 0):
+            root = sds.root_dir
             if misb == 'chdir-home':
                 os.chdir(str(env.hds.case_dir))
             elif misb == 'chdir-tmp':
